@@ -272,7 +272,7 @@ def parse_template(path, units_dir):
                         i += 1
                     b.substs.append(('\n'.join(old), '\n'.join(new), cnt)); cur = None
                 elif ln.startswith('//@hint '):
-                    m = re.match(r'//@hint (after|before)(?:#(\d+))? <<<(.*)>>>\s*$', ln)
+                    m = re.match(r'//@hint (afterstmt|after|before)(?:#(\d+))? <<<(.*)>>>\s*$', ln)
                     if not m:
                         raise ExtractError('%s: bad hint line: %s' % (path, ln))
                     h = [m.group(1) + ('#' + m.group(2) if m.group(2) else ''), m.group(3), []]
@@ -365,6 +365,25 @@ def extract_block(b: Block, snapshot: str):
             where, nth = where.split('#')
             nth = int(nth)
         c = text.count(anchor)
+        if where == 'afterstmt' and c == 1:
+            # after the end of the statement that contains the anchor (next `;` at bracket depth 0)
+            p = text.find(anchor)
+            mk = rustlex.mask(text)
+            depth, e = 0, None
+            for k in range(p, len(mk)):
+                ch = mk[k]
+                if ch in '([{':
+                    depth += 1
+                elif ch in ')]}':
+                    depth -= 1
+                elif ch == ';' and depth == 0:
+                    e = k + 1
+                    break
+            if e is not None:
+                nl = text.find('\n', e)
+                nl = len(text) if nl < 0 else nl + 1
+                text = text[:nl] + '\n'.join(lines) + '\n' + text[nl:]
+                continue
         if nth is not None and c >= nth:
             p = -1
             for _ in range(nth):
